@@ -8,11 +8,13 @@ pub(crate) fn stub_hash_with_dxdy(_l: &Layer, _lon: f64, _lat: f64) -> (u64, f64
 }
 
 /// region: 0 = every cell, 1 = only the cells lacking a S / E / N / W neighbour
-fn k_c19_cell(depth: u8, region: u8) {
+/// offsets on the lattice of step 2^-bits (bits = 4: 17 x 17 offsets, bits = 8: 257 x 257); a, b are in units of 1/256 in both cases
+fn k_c19_cell(depth: u8, region: u8, bits: u8) {
   let h: u64 = kani::any();
   let a: u16 = kani::any();
   let b: u16 = kani::any();
   kani::assume(h < spec_n_hash(depth) && a <= 256 && b <= 256);
+  if bits < 8 { let m = (1u16 << (8 - bits)) - 1; kani::assume(a & m == 0 && b & m == 0); }
   let dx = a as f64 * 0.00390625;      // a / 256, exact
   let dy = b as f64 * 0.00390625;
   unsafe { CUT = (h, dx.to_bits(), dy.to_bits()); }
